@@ -329,6 +329,8 @@ def _len(eng, a, kw, st, fr, k, node):
         return k(z3.IntVal(len(v)), st)
     if isinstance(v, Ref) and v.kind == "list":
         return k(st.heap[v.base]["n"], st)
+    if isinstance(v, Ref) and v.kind == "msgheap":
+        return k(st.heap[v.base]["size"], st)
     if isinstance(v, Ref) and v.kind == "obj":
         cell = st.heap[v.base]
         if "#len" in cell:
@@ -367,6 +369,22 @@ def _zip(eng, a, kw, st, fr, k, node):
 @lib("max", "min")
 def _maxmin(eng, a, kw, st, fr, k, node):
     name = dotted_name(node.func)
+    if len(a) == 1 and isinstance(a[0], Ref) and a[0].kind == "list":
+        # min / max of a list: an element that bounds all elements (or the default for an empty list)
+        cell = st.heap[a[0].base]
+        n, items = cell["n"], cell["items"]
+        m = eng.fresh(name)
+        if "default" not in kw:
+            eng.oblige("safety", f"{name}() of a non-empty list", st, n > 0, node)
+        cmp_ = (lambda x: m <= x) if name == "min" else (lambda x: m >= x)
+        bound = eng.S.forall(0, n, lambda j: cmp_(z3.Select(items, j)))
+        att = eng.S.exists(0, n, lambda j: z3.Select(items, j) == m)
+        if "default" in kw:
+            d = eng.to_int(kw["default"])
+            fact = z3.If(n == 0, m == d, z3.And(bound, att))
+        else:
+            fact = z3.And(bound, att)
+        return k(m, st.assume(fact))
     if len(a) == 1 and isinstance(a[0], (list, tuple)):
         a = list(a[0])
     if len(a) < 2:
@@ -554,7 +572,15 @@ def _pylist_append(eng, recv, a, kw, st, fr, k, node):
 def _list_append(eng, recv, a, kw, st, fr, k, node):
     cell = st.heap[recv.base]
     n = cell["n"]
-    s2 = st.with_cell(recv.base, "items", z3.Store(cell["items"], n, eng.to_sort(a[0], cell["items"].range())))
+    if "items" in cell:
+        s2 = st.with_cell(recv.base, "items", z3.Store(cell["items"], n, eng.to_sort(a[0], cell["items"].range())))
+    else:
+        s2 = st
+        if not isinstance(a[0], tuple):
+            raise Unsupported("append of a non-tuple to a list of tuples")
+        for j, x in enumerate(a[0]):
+            arr = cell[f"items{j}"]
+            s2 = s2.with_cell(recv.base, f"items{j}", z3.Store(arr, n, eng.to_sort(x, arr.range())))
     s2 = s2.with_cell(recv.base, "n", n + 1)
     return k(PNONE, s2)
 
@@ -787,3 +813,45 @@ def _set(eng, a, kw, st, fr, k, node):
     if not a:
         return k(Opq(z3.Const("emptyset", V)), st)
     return k(Opq(z3.Function("fn:set", V, V)(eng.to_v(a[0]))), st)
+
+
+@lib("heapq.heappush")
+def _heappush(eng, a, kw, st, fr, k, node):
+    """heappush(h, (number, msg)) on the abstracted message heap; also records the ghost history Sent / SentMsg."""
+    from .monitor import heap_facts
+    h, item = a
+    if not (isinstance(h, Ref) and h.kind == "msgheap" and isinstance(item, tuple) and len(item) == 2):
+        raise Unsupported("heappush on something that is not the message heap")
+    cell = st.heap[h.base]
+    n = eng.to_int(item[0])
+    m = eng.to_v(item[1])
+    eng.oblige("safety", "a message number is pushed at most once (heap model: size = number of entries)", st,
+               z3.Not(z3.Select(cell["inbox"], n)), node)
+    st = st.with_cell(h.base, "inbox", z3.Store(cell["inbox"], n, True))
+    st = st.with_cell(h.base, "msgs", z3.Store(cell["msgs"], n, m))
+    st = st.with_cell(h.base, "size", cell["size"] + 1)
+    for f in heap_facts(eng, st.heap[h.base]):
+        st = st.assume(f)
+    if "Sent" in st.ghost:
+        g = dict(st.ghost)
+        g["Sent"] = z3.Store(g["Sent"], n, True)
+        g["SentMsg"] = z3.Store(g["SentMsg"], n, m)
+        st = St(st.env, st.heap, st.pc, g)
+    return k(PNONE, st)
+
+
+@lib("heapq.heappop")
+def _heappop(eng, a, kw, st, fr, k, node):
+    from .monitor import heap_facts
+    h = a[0]
+    if not (isinstance(h, Ref) and h.kind == "msgheap"):
+        raise Unsupported("heappop on something that is not the message heap")
+    cell = st.heap[h.base]
+    eng.oblige("safety", "heappop of a non-empty heap", st, cell["size"] > 0, node)
+    low = eng.heap_lowest(cell)
+    res = (low, Opq(z3.Select(cell["msgs"], low)))
+    st = st.with_cell(h.base, "inbox", z3.Store(cell["inbox"], low, False))
+    st = st.with_cell(h.base, "size", cell["size"] - 1)
+    for f in heap_facts(eng, st.heap[h.base]):
+        st = st.assume(f)
+    return k(res, st)
